@@ -118,6 +118,10 @@ def reset_initial_conditions(
     InitCond.ccx_w_ns = 0
     InitCond.ccx_early_sen = 0
     InitCond.cc_prev = 0
+    # initial canopy size the growth equations start from (as at initialisation of a
+    # run that starts on the planting date); otherwise it is only set on a day before
+    # emergence, which crops that emerge on day 1 never have
+    InitCond.cc0_adj = crop.CC0
     InitCond.protected_seed = 0
     InitCond.sumET0EarlySen = 0
     InitCond.HIfinal = crop.HI0
